@@ -22,8 +22,8 @@ META = {
     "the world affine whichever operand is the reference; enclosing lies on the grid, covers the region, exceeds "
     "it by < 1 px per side; snap_to moves by <= 1/2 px onto the other grid; grids differing in CRS, pixel size, "
     "orientation or sub-pixel offset beyond the isclose / 1e-8 thresholds are rejected by every operation.  The "
-    "model is tied to /repo on every run by an exact behavioural correspondence (exhaustive small families on 7 "
-    "base grids, random large families and triples, threshold-straddling perturbations) and an independent "
+    "model is tied to /repo on every run by an exact behavioural correspondence (exhaustive small families on 10 "
+    "base grids, random large families and triples, huge integer shapes, threshold-straddling perturbations) and an independent "
     "exact-Fraction pixel-set oracle on the real outputs (also on realistic UTM / lon-lat doubles).",
     "note": "Trusted: Lean kernel + {propext, Classical.choice, Quot.sound}; numpy.isclose constants (read from the "
     "installed numpy each run and compared with the model's); affine.Affine arithmetic (shared rational model); "
